@@ -2003,7 +2003,9 @@ class UserActions(object):
         continue
       col_filter = json.loads(rec.filter)
       new_filter = {
-        include_exclude: [rename(value) for value in values]
+        # Only by-value entries ("included"/"excluded") are lists; range bounds ("min"/"max") are
+        # numbers or relative-date objects and must be kept as they are.
+        include_exclude: [rename(value) for value in values] if isinstance(values, list) else values
         for include_exclude, values in col_filter.items()
       }
       if col_filter != new_filter:
